@@ -22,6 +22,7 @@
 #define ALG_CONVERT 8
 #define ALG_FOREACH_POS 9
 #define ALG_TRANSFORM_POS 10
+#define ALG_FILL_OTHER_ORDER 11   /* fill_pixels with a compatible value of the opposite channel order (bgr value into an rgb view) */
 namespace gil = boost::gil;
 
 // functors return pixel VALUES (a copy of a planar / bit-aligned reference proxy would alias the source)
@@ -68,6 +69,9 @@ extern "C" void h_alg(void) {
     gil::copy_and_convert_pixels(sv, dv);
 #elif ALG == ALG_FILL
     gil::fill_pixels(dv, fillv);
+#elif ALG == ALG_FILL_OTHER_ORDER
+    gil::bgr8_pixel_t fillo(fillv);   // same colours, opposite memory order
+    gil::fill_pixels(dv, fillo);
 #elif ALG == ALG_EQUAL
     // destination := source (per-pixel loop), then one channel of one pixel (concrete position, vp_param 6,7) is changed by a
     // symbolic amount delta (possibly 0): equal_pixels must return exactly (delta == 0). Fully symbolic destination contents
@@ -101,7 +105,7 @@ extern "C" void h_alg(void) {
         vp_assert(dv(x, y) == sv(x, y), "alg.pixel_equals_loop_result");
 #elif ALG == ALG_CONVERT
         { typename DST::view_t::value_type e; gil::color_convert(sv(x, y), e); vp_assert(dv(x, y) == e, "alg.pixel_equals_loop_result"); }
-#elif ALG == ALG_FILL || ALG == ALG_FOREACH_POS
+#elif ALG == ALG_FILL || ALG == ALG_FOREACH_POS || ALG == ALG_FILL_OTHER_ORDER
         vp_assert(dv(x, y) == fillv, "alg.pixel_equals_loop_result");
 #elif ALG == ALG_FOREACH || ALG == ALG_GENERATE
         { typename DST::view_t::value_type e = fillv; gil::at_c<0>(e) = ((y * W + x) & 1); vp_assert(dv(x, y) == e, "alg.pixel_equals_loop_result_row_major_order"); }
